@@ -817,7 +817,7 @@ func ruleEqualLeaflist(w *core.World, r *core.Report) {
 		}
 	}
 	r.Check(nLen >= 2 && cmp, "EQUAL-LEAFLIST", core.Site(f, "lengths compared"), w.Pos(f.Pos()), "leaf-lists of different length must be unequal")
-	rec := core.RecursesInLoop(f)
+	rec := core.RecursesInLoopVia(f, func(k string) bool { return k == "slices.EqualFunc" })
 	r.Check(rec, "EQUAL-LEAFLIST", core.Site(f, "elements compared pairwise"), w.Pos(f.Pos()), "element-wise comparison by recursion")
 }
 
